@@ -29,9 +29,18 @@ CheckTotal(e) ==
   \* the text the process text is asked for twice is the same text (the second call reads the cache or recomputes: both return)
   \cup Tag(e.detailStable, "detail-unstable")
 
+\* host: one call of a call sequence of spec/Host.tla (any order of Parse / RunAfterParsed / Run / RunExpr and the observers on one
+\* context), with the outcome the model prescribes in the state it tracks.  Totality is the property; agreement with the rest of
+\* the model (outcome class, value of a variable-free text = its value on a fresh context, Matched+Rest = input) is reported as drift.
+CheckHost(e) ==
+  Tag(e.out \in Outcome, "panic-escapes")
+  \cup Tag(e.out \notin Outcome \/ (e.out = e.pred /\ e.same /\ e.concat), "host-model-drift")
+
+Check(e) == IF e.ev = "host" THEN CheckHost(e) ELSE CheckTotal(e)
+
 Init == l = 1 /\ bad = <<>>
 Step == /\ l <= Len(Trace)
-        /\ LET why == CheckTotal(Trace[l]) IN bad' = IF why = {} THEN bad ELSE Append(bad, [i |-> l, why |-> why])
+        /\ LET why == Check(Trace[l]) IN bad' = IF why = {} THEN bad ELSE Append(bad, [i |-> l, why |-> why])
         /\ l' = l + 1
 Finish == /\ l = Len(Trace) + 1
           /\ JsonSerialize(IOEnv.RESULT, [n |-> Len(Trace), bad |-> bad])
